@@ -5,8 +5,8 @@ from ..core import f2b, b2f, run_harness, run_driver
 from ..cmp import cmp_record
 from .. import gen, oracle, graphs
 
-MODULE = "Momtrop.Props.C06"
-THEOREMS = ["Momtrop.C06.scan_spec", "Momtrop.C06.sampleEdge_sound", "Momtrop.C06.sampleEdge_first", "Momtrop.C06.sampleEdge_total"]
+MODULE = "Momtrop.Props.C06R"
+THEOREMS = ["Momtrop.C06.scan_spec", "Momtrop.C06.sampleEdge_sound", "Momtrop.C06.sampleEdge_first", "Momtrop.C06.sampleEdge_total", "Momtrop.C06.scan_hit", "Momtrop.C06.sampleEdge_interval", "Momtrop.C06.interval_length", "Momtrop.C06.sampleEdge_total_real"]
 RULE = ("tables of accepted catalogue/random graphs (E<=6 quick / 8 thorough) plus one-loop n-gons with k/20 weights (whose rounded "
         "cumulative sums often end below 1); every subgraph with >=2 edges (capped per table) x u in {random, every cumulative "
         "boundary c_k and c_k -+ 1ulp, 0, 2^-1074, 1-2^-53, 1-2^-52, exactly representable grid values}; through the hook and, for the "
@@ -115,9 +115,14 @@ def run(ctx):
             if a.get("edge") != exp or a.get("rest") != g ^ (1 << exp):
                 ctx.violation(f"edge {a.get('edge')} selected, the exact cumulative distribution gives edge {exp}", small, expected=exp, observed=a)
         else:
-            # inside the band: the selected edge must still be one of the two neighbours of the boundary
-            idx = [e for e, _ in ex]
-            k = next((i for i, (_, ck) in enumerate(ex) if ck >= uu - Fraction(1, 10 ** 9)), len(ex) - 1)
-            allowed = set(idx[max(0, k - 1): k + 2])
+            # inside the band: every edge whose probability interval [c_{k-1}, c_k] comes within 1e-9 of u is admissible
+            band = Fraction(1, 10 ** 9)
+            allowed, prev = set(), Fraction(0)
+            for e, ck in ex:
+                if prev - band <= uu <= ck + band:
+                    allowed.add(e)
+                prev = ck
+            if uu > ex[-1][1] - band:
+                allowed.add(ex[-1][0])
             if a.get("edge") not in allowed:
-                ctx.violation(f"edge {a.get('edge')} selected for u on a boundary; neighbours are {sorted(allowed)}", small, observed=a)
+                ctx.violation(f"edge {a.get('edge')} selected for u on a boundary; admissible edges are {sorted(allowed)}", small, observed=a)
